@@ -374,6 +374,15 @@ theorem merge_nonbyte_overrides (s o : TileJSON M) (ho : SortedKeys o.values) (k
     (hv : lookupKV k o.values = some v) (hnb : ∀ b, v ≠ .byte b) :
     lookupKV k (merge nu s o).values = some v := merge_zoom_nonbyte nu s o ho k v hv hnb
 
+/-- vector layers of a merge: a layer only in `other` is taken over, a layer in both is merged field
+    by field (`VectorLayer::merge`), a layer only in `self` stays -/
+theorem merge_layers (s o : TileJSON M) (ho : SortedKeys o.layers) (k : Key) :
+    lookupKV k (merge nu s o).layers =
+      match lookupKV k o.layers, lookupKV k s.layers with
+      | some lb, some la => some (mergeLayer la lb)
+      | some lb, none => some lb
+      | none, x => x := lookup_mergeLayers s.layers o.layers ho k
+
 /-- `merge` keeps the value map a sorted map -/
 theorem merge_sorted (s o : TileJSON M) (hs : SortedKeys s.values) : SortedKeys (merge nu s o).values :=
   merge_values_sorted nu s o hs
